@@ -102,6 +102,19 @@ fn req_strat() -> impl Strategy<Value = Req> {
     ]
 }
 
+/// request mix centred on the node-wide payment ledger
+fn req_strat_pay() -> impl Strategy<Value = Req> {
+    let ch = || 0u8..2;
+    prop_oneof![
+        10 => (ch(), any::<bool>()).prop_map(|(ch, phase1)| Req::CSignPay { ch, phase1 }),
+        2 => (0u8..2).prop_map(|h| Req::Approve { h }),
+        2 => (ch(), 1u8..3, 0u8..2).prop_map(|(ch, n, variant)| Req::CSign { ch, n, variant }),
+        1 => Just(Req::NodeBalance),
+        1 => Just(Req::Heartbeat),
+        1 => ch().prop_map(|ch| Req::ChanBalance { ch }),
+    ]
+}
+
 /// request mix of the chain scenario: the requests that take the tracker, the channel map and the
 /// monitors are over-represented
 fn req_strat_chain() -> impl Strategy<Value = Req> {
@@ -566,7 +579,9 @@ impl Prop for C20 {
             .prop_map(|(threads, pct, sched_seed)| Case { threads: trim(threads), pct, sched_seed, chain: false });
         let chain = (proptest::collection::vec(proptest::collection::vec(req_strat_chain(), 1..3), 2..4), any::<bool>(), any::<u64>())
             .prop_map(|(threads, pct, sched_seed)| Case { threads: trim(threads), pct, sched_seed, chain: true });
-        prop_oneof![1 => plain, 1 => chain].boxed()
+        let pay = (proptest::collection::vec(proptest::collection::vec(req_strat_pay(), 1..3), 2..4), any::<bool>(), any::<u64>())
+            .prop_map(|(threads, pct, sched_seed)| Case { threads: trim(threads), pct, sched_seed, chain: false });
+        prop_oneof![3 => plain, 3 => chain, 2 => pay].boxed()
     }
 
     fn run(&self, case: &Case, stt: &mut CaseStats, ctx: &Ctx) -> Result<(), Violation> {
